@@ -1,5 +1,12 @@
 import PgsVerif.Model.GoTypes
-import PgsVerif.Generated.Code
+import PgsVerif.Generated.Code_context_ImportPath
+import PgsVerif.Generated.Code_context_OutputPath
+import PgsVerif.Generated.Code_context_Type
+import PgsVerif.Generated.Code_context_elType
+import PgsVerif.Generated.Code_context_importableTypeName
+import PgsVerif.Generated.Code_filePath_SetExt
+import PgsVerif.Generated.Code_typeName_IsPointer
+import PgsVerif.Generated.Code_typeName_Pointer
 /-!
 # Tie (translated code): lang/go `Type`, `elType`, `importableTypeName`, `TypeName.Pointer / IsPointer`
 
